@@ -5,6 +5,7 @@
 -/
 import Driver.Proto
 import Driver.Pre
+import Driver.Content
 
 open Driver
 
@@ -12,7 +13,7 @@ def dispatch (line : String) : String :=
   match (line.splitOn " ").filter (· ≠ "") with
   | [] => "bad-op"
   | cmd :: args =>
-    let handlers : List (String → Option (P String)) := [cmdPre]
+    let handlers : List (String → Option (P String)) := [cmdPre, cmdContent]
     match handlers.findSome? (fun h => h cmd) with
     | none => "bad-op"
     | some p => match run p args with
